@@ -47,6 +47,9 @@ def removePair (i : Idx) (p : Pair) : Idx :=
   | some as => { i1 with aliasIdx := as.foldl (fun acc a => delKV a acc) i1.aliasIdx }
   | none => i1
 
+/-- the erc20 store at genesis: the native coin is registered with the WFX contract (contract 0), no aliases -/
+def genesisIdx : Idx := addPair { md := [(0, [])] } ⟨0, 0, true, false⟩
+
 structure UState where
   idx : Idx
   L : Ledger
@@ -138,6 +141,12 @@ def UState.withLedger (s : UState) (r : Except Err Ledger) : Except Err UState :
   | .ok L => .ok { s with L := L }
   | .error e => .error e
 
+/-- what the registrations check before anything else: `GetEnableErc20`, and (`QueryERC20`) that the contract answers -/
+def idxGuard (s : UState) : IOp → Option Err
+  | .registerCoin _ _ _ => if s.enable then none else some .disabled
+  | .registerERC20 _ ct _ => if !s.enable then some .disabled else if s.dead.contains ct then some .invalid else none
+  | _ => none
+
 def stepU (s : UState) : UOp → Except Err UState
   | .convertCoin d u r n =>
     match mintingEnabled s (pairByDenom s.idx d) with
@@ -162,14 +171,12 @@ def stepU (s : UState) : UOp → Except Err UState
       | none => if s.L.bal (coinAsset d) (.user u) < n then .error .insufficient else .error .notFound
       | some p => s.withLedger (runFlow (convertDenomU (denomMode base p) base aliases d dst u r n) s.L)
   | .idx op =>
-    let guarded : Bool := match op with
-      | .registerCoin _ _ _ => !s.enable
-      | .registerERC20 _ ct _ => !s.enable || s.dead.contains ct
-      | _ => false
-    if guarded then .error (if s.enable then .invalid else .disabled) else
-    match stepIdx s.idx op with
-    | .ok i => .ok { s with idx := i }
-    | .error e => .error e
+    match idxGuard s op with
+    | some e => .error e
+    | none =>
+      match stepIdx s.idx op with
+      | .ok i => .ok { s with idx := i }
+      | .error e => .error e
   | .setEnable b => .ok { s with enable := b }
 
 def stepUT (s : UState) (op : UOp) : UState :=
